@@ -153,6 +153,8 @@ def judge_lang_batch(job):
         ref = gen_core.interpret(prog)
         if ref is None:
             continue
+        if lang == "c" and "str-append" in prog.features:
+            continue        # C has no string append operator: the program is not expressible there
         ident = f"P{sd}"
         text = R(ident).render(prog)
         name = (f"Main{ident}.java" if lang == "java" else f"p{sd}.{R.ext}")
